@@ -10,6 +10,7 @@ for tf in sorted(glob.glob(d + '/trace*.ndjson')):
     lines = open(tf).read().splitlines()
     shards = sorted(glob.glob(tf + '.shard*[0-9]'), key=lambda x: int(x.split('shard')[-1])) or [tf]
     off = 0
+    H = int(os.environ.get('HEADER', '0'))
     for sf in shards:
         n = sum(1 for _ in open(sf)) if sf != tf else len(lines)
         lg = sf + '.tlc.log'
@@ -18,7 +19,7 @@ for tf in sorted(glob.glob(d + '/trace*.ndjson')):
                 c[r['law']] += 1
                 if len(ex[r['law']]) < int(os.environ.get('N', '4')):
                     ex[r['law']].append((r['line'], r['info'][:200], lines[r['line'] - 1][:700]))
-        off += n
+        off += n - int(os.environ.get('HEADER', '0')) if sf != shards[0] or True else n
 print(c)
 for k, v in ex.items():
     for e in v:
